@@ -29,7 +29,7 @@ def FinOK (e : Env) (st : Int) (c' : Ctx) : Prop :=
   (st = e.eoi ∧ c'.inPos = e.inp.size) ∨
   (st = stDone ∧ c'.r.state = sDoneForever) ∨
   (st = stFailed ∧ sDoneForever < c'.r.state) ∨
-  st = stBlockBoundary
+  (st = stBlockBoundary ∧ hasFlag e.flags fStopOnBlockBoundary = true)
 
 def StepOK (e : Env) (c : Ctx) (out : Array UInt8) : Step → Prop
   | .cont c' out' => Adv e c out c' out'
@@ -251,7 +251,8 @@ theorem stBlockDone_ok (g : Geo e c out) : StepOK e c out (stBlockDone e c out) 
     · exact Adv.of_pos g (by simp; omega) rfl
     · exact Adv.of_pos g (by simp; omega) rfl
   · split
-    · exact ⟨Adv.of_pos g g.inLe rfl, Or.inr (Or.inr (Or.inr (Or.inr rfl)))⟩
+    · rename_i hstop
+      exact ⟨Adv.of_pos g g.inLe rfl, Or.inr (Or.inr (Or.inr (Or.inr ⟨rfl, hstop⟩)))⟩
     · exact Adv.of_pos g g.inLe rfl
 
 theorem stReadAdler32_ok (g : Geo e c out) : StepOK e c out (stReadAdler32 e c out) := by
